@@ -10,8 +10,8 @@
      -> (ok ((s<line> ...) true|false)) | (raise ...)      PathsPrint.process_doc
    value table = ((s<path text> (ok s<text>) | ype | (crash Name)) ...)
    mtable = ((i<oid> (i<pos> ...) (<node> ...)) ...)
-   (paths-docwf <doc> <mtable>) -> (ok (true|false true|false true|false))
-     SpecC07.same_oid_same_tree, c07_keys_leaf, merged_closed: the document well-formedness
+   (paths-docwf <doc>) -> (ok (true|false true|false))
+     SpecC07.same_oid_same_tree, c07_keys_leaf: the document well-formedness doc_wf
      from which the loader guarantee shared_closed is PROVED (C07_shared_closed_from_wf) *)
 open Model
 open Sexp
@@ -115,10 +115,9 @@ let handle (cmd : string) (args : t list) : t option =
   | "paths-print" -> Some (run_print args)
   | "paths-docwf" ->
     (match args with
-     | [d; mtb] ->
+     | [d] ->
        let doc = node_of_sexp d in
-       Some (L [A "ok"; L [bs (same_oid_same_tree doc); bs (c07_keys_leaf doc);
-                           bs (merged_closed (mtable_of_sexp mtb) doc [])]])
+       Some (L [A "ok"; L [bs (same_oid_same_tree doc); bs (c07_keys_leaf doc)]])
      | _ -> failwith "paths-docwf: bad arguments")
   | "search-term" ->
     (match args with
